@@ -23,12 +23,18 @@ type relCtx struct {
 }
 
 func (c *relCtx) emit(e *R, doc any, o Obs, unordered bool) {
+	text := unparse(e)
 	if hasEnum(e) && orderSensitive(e) {
-		c.sum.count("not-compared/enumeration-then-position")
-		return
+		if buildsObjects(e) {
+			c.sum.count("not-compared/enumeration-then-position")
+			return
+		}
+		// objects with one member enumerate in one order only
+		doc = bestNarrow(text, doc)
+		o = search(text, doc)
+		c.sum.count("narrowed-objects/enumeration-then-position")
 	}
 	c.id++
-	text := unparse(e)
 	u := "false"
 	if unordered {
 		u = "true"
@@ -48,7 +54,16 @@ func (c *relCtx) same(kind string, l, r *R, doc any) {
 	c.sum.count(kind)
 	c.sum.count("outcome/" + ol.Kind)
 	if un && (orderSensitive(l) || orderSensitive(r)) {
-		c.sum.count("skipped-enumeration-then-position")
+		if buildsObjects(l) || buildsObjects(r) {
+			c.sum.count("skipped-enumeration-then-position")
+		} else {
+			nd := bestNarrow(tl, doc)
+			nl, nr := search(tl, nd), search(tr, nd)
+			c.sum.count("narrowed-objects/identity")
+			if !sameObs(nl, nr, un) {
+				c.sum.direct("identity "+kind, tl, nd, fmt.Sprintf("%q gives %s but %q gives %s", tl, describe(nl), tr, describe(nr)))
+			}
+		}
 	} else if !sameObs(ol, or_, un) {
 		c.sum.direct("identity "+kind, tl, doc, fmt.Sprintf("%q gives %s but %q gives %s", tl, describe(ol), tr, describe(or_)))
 	}
@@ -104,10 +119,13 @@ func genC17(tier, out string, sum *Summary) {
 	g := &Gen{NoValues: false}
 	c := &relCtx{sh: &Shards{dir: out, prop: "C17", imports: "Spec.RefAst Checks.Spec", ctype: "speccase", runner: "spec_run", per: 300}, sum: sum, dist: map[string]bool{}}
 	for i := 0; i < n; i++ {
-		doc := genDoc()
 		x := g.chain(2)
 		s1 := g.strictRHS(1 + rng.Intn(2))
 		s2 := g.strictRHS(1 + rng.Intn(2))
+		doc := genDoc()
+		if rng.Intn(4) > 0 { // a document on which the chain and the selectors find something
+			doc = docFor(proj(PList, x, graft(s1, s2)))
+		}
 		kinds := []func(l, r *R) *R{
 			func(l, r *R) *R { return proj(PList, l, r) },
 			func(l, r *R) *R { return proj(PFlatten, l, r) },
